@@ -156,7 +156,7 @@ Qed.
     these (not the moments about the moving centroid) obey a closed recurrence.
     ------------------------------------------------------------------------------------------------ *)
 From Inovesa Require Import Model.RF Model.Moments2Fix Proofs.WeightsP Proofs.RFP Proofs.RFGridP Proofs.Moment2RowP
-  Proofs.StepMoments2P Proofs.RFExampleP Proofs.StepExampleP Proofs.CoupledP Proofs.CoupledR Proofs.CoupledGridR.
+  Proofs.StepMoments2P Proofs.RFExampleP Proofs.StepExampleP Proofs.CoupledP Proofs.CoupledR Proofs.CoupledGridR Proofs.FPStabilityP.
 Import ListNotations.
 
 (** C04.3a, one kick row: the centred second moment moves exactly by the displacement the table row encodes,
@@ -491,3 +491,25 @@ Theorem C04_grid_deviation_contracts_partial :
             (dev (K:=RF) v (phi a) (phi t) (phi e1) (phi delta) (mapm (gm2 n xc yc D b))).
 Proof. exact grid_deviation_contracts. Qed.
 Print Assumptions C04_grid_deviation_contracts_partial.
+
+(** C04.7 "per-step decrement within the explicit scheme's stable range" (the property's quantifier), made precise:
+    the grid's highest mode (-1)^j c is an eigenvector of every interior row of the 3-point step, eigenvalue
+    1 + d - 4 f/delta^2; with damping and diffusion it is not amplified iff 4 e1 <= (2 + e1) delta^2 (e1 <= delta^2/2
+    to first order).  Beyond it the float implementation amplifies rounding noise by |1 + e1 - 4 e1/delta^2| per step
+    (confirmed on the program: -s 256 -P 5 -N 100 -d 0.002 -f 8000 --derivation 3 gives NaN after a few steps), while
+    the moment laws above, which hold in exact arithmetic, are unaffected: the check's runs stay inside the range. *)
+Theorem C04_fp3_highest_mode_eigenvalue :
+  forall (K : Fld) (e1 delta : K) (p : Z -> K) (v n le m : Z) (r : Z -> K) (c : K) (y : Z),
+    (n < 2 ^ 32)%Z -> (1 <= y < n - 1)%Z -> delta <> f0 ->
+    r (y - 1)%Z = fopp c -> r y = c -> r (y + 1)%Z = fopp c ->
+    fp_col_out 3 (H3 K e1 delta p v n le m) r y = fmul (nyq_lambda e1 delta v) c.
+Proof. exact fp3_nyquist_mode. Qed.
+Print Assumptions C04_fp3_highest_mode_eigenvalue.
+
+Theorem C04_fp3_stable_range :
+  forall (e1 delta : R) (v : Z),
+    has_damp v = true -> has_diff v = true -> 0 < e1 -> delta <> 0 -> delta * delta <= 4 ->
+    (4 * e1 <= (2 + e1) * (delta * delta) -> Rabs (nyq_lambda (K:=RF) e1 delta v) <= 1) /\
+    ((2 + e1) * (delta * delta) < 4 * e1 -> 1 < Rabs (nyq_lambda (K:=RF) e1 delta v)).
+Proof. exact nyquist_stable_range. Qed.
+Print Assumptions C04_fp3_stable_range.
